@@ -67,7 +67,11 @@ def run(ck, ctx):
                   f"[{' > '.join(e.funcs()[-3:-1])} at {e.where()}]", e.data.get("folded"), e.node, e.funcs()[-1],
                   "number of column names equals the number of returned values" if e.data.get("folded") else
                   "names / returned values mismatch: the assertion fails as soon as a store is passed")
-        ck.floor("R14.1", len(asserts), 7, "storing-wrapper assertions reached from compute()")
+        if asserts:
+            ck.floor("R14.1", len(asserts), 7, "storing-wrapper assertions reached from compute()")
+        else:
+            ck.note("the storing wrapper states no arity assertion: names versus returned values are decided per stage "
+                    "call by R14.2 and package-wide by R14.1(b)")
         # (b) package wide, syntactically
         n = 0
         for m in ctx.prog.modules.values():
